@@ -571,6 +571,28 @@ def into_iter(ex, args):
     return v   # already an iterator
 
 
+@dataclass(frozen=True, eq=False)
+class Zip(IterBase):
+    a: Any
+    b: Any
+
+    def next(self, ex):
+        ia, na = iter_next(ex, self.a)
+        pa = opt_is_some(ex, ia)
+        if pa is None:
+            return NONE, Zip(na, self.b)
+        ib, nb = iter_next(ex, self.b)
+        pb = opt_is_some(ex, ib)
+        if pb is None:
+            return NONE, Zip(na, nb)
+        return some((pa[0], pb[0])), Zip(na, nb)
+
+
+@intrinsic('Iterator::zip')
+def it_zip(ex, args):
+    return Zip(args[0], into_iter(ex, [args[1]]))
+
+
 @intrinsic('Iterator::enumerate')
 def it_enumerate(ex, args):
     return Enumerate(args[0])
@@ -634,6 +656,10 @@ def _items_of_slice_iter(ex, it):
                 break
             out.append((s.elems[j], valid))
         return out
+    if isinstance(it, Zip):
+        # both sides yield a prefix (validity is monotone), so the pair is valid iff both elements are
+        la, lb = _items_of_slice_iter(ex, it.a), _items_of_slice_iter(ex, it.b)
+        return [((va, vb), And(ca, cb)) for (va, ca), (vb, cb) in zip(la, lb)]
     from . import strings
     if isinstance(it, strings.Chars):
         return [(c, True) for c in it.remaining_chars()]
